@@ -98,6 +98,11 @@ def body_web_invalid(body, exists, vcf, nparams, post=False, ifmatch=False):
         ok = r.status_class == "412" and _precondition(r) in want and Wm.digest(w) == before
         return (ok, "invalid")
     if post:
+        # (a body carrying the UID of the existing member is a UID conflict - C06 - and rightly refused as one)
+        u = SP.uid("x.ics", body) if not vcf else None
+        if u is not None and any(SP.uid(n, b) == u for n, b in cal_state.items()):
+            ok = r.status_class == "412" and _precondition(r) == "{urn:ietf:params:xml:ns:caldav}no-uid-conflict"
+            return (ok and Wm.digest(w) == before, "valid-post-uid-conflict")
         return (r.status_class == "2xx", "valid-post")
     g = mweb.call(app, "GET", col + "/" + name)
     ok = r.status_class == "2xx" and g.status_class == "2xx" and g.body == SP.norm(name, body)
